@@ -31,6 +31,7 @@ import (
 
 type replayRecipe struct {
 	terms          map[string]string // parameter name -> SMT term to read instead of the constant p_<name>
+	mems           map[string]string // bytes parameter name -> memory array holding its contents (default: the entry memory)
 	params         [][2]string
 	file, pkg, run string
 	text           string
@@ -53,6 +54,14 @@ func loadRecipe(fkey string) *replayRecipe {
 					kind, term := kv[1], ""
 					if i := strings.Index(kind, "@"); i >= 0 {
 						kind, term = kind[:i], strings.ReplaceAll(kind[i+1:], "~", " ") // "~" stands for a blank inside the term
+					}
+					// name:bytes@<slice term>@<memory term>: the contents are read from that version of the byte memory
+					if i := strings.Index(term, "@"); i >= 0 {
+						if r.mems == nil {
+							r.mems = map[string]string{}
+						}
+						r.mems[kv[0]] = term[i+1:]
+						term = term[:i]
 					}
 					r.params = append(r.params, [2]string{kv[0], kind})
 					if term != "" {
@@ -91,6 +100,13 @@ func candidateQuery(vc *VC, o *Obligation, r *replayRecipe, block []string) (str
 		if l == "(check-sat)" {
 			continue
 		}
+		if l == "(declare-fun sidx (Int Int) Int)" {
+			// the defining axiom of sidx is quantified and dropped above; without a definition every array index of the
+			// query would be free and the model would say nothing about contents
+			b.WriteString("(define-fun sidx ((o Int) (i Int)) Int (+ o i))\n")
+			declared["sidx"] = true
+			continue
+		}
 		if strings.HasPrefix(l, "(declare-const ") || strings.HasPrefix(l, "(declare-fun ") {
 			fs := strings.Fields(strings.NewReplacer("(", " ", ")", " ").Replace(l))
 			if len(fs) >= 2 {
@@ -102,7 +118,7 @@ func candidateQuery(vc *VC, o *Obligation, r *replayRecipe, block []string) (str
 	}
 	// "prefix*" inside an explicit term stands for the first declared constant with that prefix (the names of
 	// intermediate heap versions carry a running number)
-	for name, t := range r.terms {
+	expand := func(t string) string {
 		for strings.Contains(t, "*") {
 			i := strings.Index(t, "*")
 			j := strings.LastIndexAny(t[:i], " (") + 1
@@ -110,7 +126,11 @@ func candidateQuery(vc *VC, o *Obligation, r *replayRecipe, block []string) (str
 			best := ""
 			for _, l := range strings.Split(full, "\n") {
 				if strings.HasPrefix(l, "(declare-const "+prefix) {
-					best = strings.Fields(strings.NewReplacer("(", " ", ")", " ").Replace(l))[1]
+					name := strings.Fields(strings.NewReplacer("(", " ", ")", " ").Replace(l))[1]
+					if strings.HasSuffix(name, "__e0") { // the entry state has a fixed name; "*" asks for a later version
+						continue
+					}
+					best = name
 					break
 				}
 			}
@@ -119,7 +139,16 @@ func candidateQuery(vc *VC, o *Obligation, r *replayRecipe, block []string) (str
 			}
 			t = t[:j] + best + t[i+1:]
 		}
-		r.terms[name] = t
+		return t
+	}
+	for name, t := range r.terms {
+		r.terms[name] = expand(t)
+	}
+	for name, t := range r.mems {
+		r.mems[name] = expand(t)
+		if !declared[r.mems[name]] {
+			delete(r.mems, name) // no such version in this query: fall back to the entry memory
+		}
 	}
 	var terms []string
 	for _, pr := range r.params {
@@ -139,9 +168,11 @@ func candidateQuery(vc *VC, o *Obligation, r *replayRecipe, block []string) (str
 		case "bytes":
 			fmt.Fprintf(&b, "(assert (<= (s-len %s) %d))\n", c, replayMaxLen)
 			terms = append(terms, "(s-len "+c+")")
-			if declared["Mem_uint8__e0"] {
+			if mem := r.memOf(pr[0]); declared[mem] {
 				for i := 0; i < replayMaxLen; i++ {
-					terms = append(terms, fmt.Sprintf("(select (select Mem_uint8__e0 (s-ref %s)) (+ (s-off %s) %d))", c, c, i))
+					t := fmt.Sprintf("(select (select %s (s-ref %s)) (+ (s-off %s) %d))", mem, c, c, i)
+					fmt.Fprintf(&b, "(assert (and (<= 0 %s) (< %s 256)))\n", t, t) // the byte range axiom is quantified too
+					terms = append(terms, t)
 				}
 			}
 		}
@@ -184,7 +215,7 @@ func parseValues(out string, terms []string) map[string]string {
 	return vals
 }
 
-func goLiteral(kind, c string, vals map[string]string) (string, bool) {
+func goLiteral(kind, c string, vals map[string]string, mem string) (string, bool) {
 	atoi := func(s string) int {
 		n, _ := strconv.Atoi(s)
 		return n
@@ -215,7 +246,7 @@ func goLiteral(kind, c string, vals map[string]string) (string, bool) {
 			if kind == "string" {
 				t = fmt.Sprintf("(sat %s %d)", c, i)
 			} else {
-				t = fmt.Sprintf("(select (select Mem_uint8__e0 (s-ref %s)) (+ (s-off %s) %d))", c, c, i)
+				t = fmt.Sprintf("(select (select %s (s-ref %s)) (+ (s-off %s) %d))", mem, c, c, i)
 			}
 			x := atoi(vals[t])
 			if x < 0 || x > 255 {
@@ -259,7 +290,7 @@ func (p *Program) replay(dir string, o *Obligation, it *OblResult, model, reason
 		ok := true
 		var differ []string
 		for _, pr := range r.params {
-			lit, have := goLiteral(pr[1], r.termOf(pr[0]), vals)
+			lit, have := goLiteral(pr[1], r.termOf(pr[0]), vals, r.memOf(pr[0]))
 			if !have {
 				// parameter not constrained by the query: a neutral value
 				lit = map[string]string{"int": "0", "bool": "false", "string": `""`, "bytes": "[]byte{}"}[pr[1]]
@@ -350,4 +381,11 @@ func (r *replayRecipe) termOf(name string) string {
 		return t
 	}
 	return "p_" + name
+}
+
+func (r *replayRecipe) memOf(name string) string {
+	if m, ok := r.mems[name]; ok {
+		return m
+	}
+	return "Mem_uint8__e0"
 }
